@@ -39,6 +39,7 @@ func init() {
 		}
 		li.writer = true
 		fr.i.lockEvents++
+		fr.i.onAcquire(p)
 		return nil
 	}
 	unlock := func(fr *frame, a []value) value {
@@ -58,6 +59,7 @@ func init() {
 		}
 		li.readers++
 		fr.i.lockEvents++
+		fr.i.onAcquire(p)
 		return nil
 	}
 	runlock := func(fr *frame, a []value) value {
